@@ -684,8 +684,10 @@ LEVEL_TEXT = (
     "Fault enumeration over valid payloads of every layout (synthetic with known field offsets, and the real sample "
     "beacons): truncations at structure boundaries, boundary values written into every named structure field, bit/byte "
     "flips, splices, junk and crafted minimal inputs are run through all twelve entry points (bytes / BytesIO / real "
-    "files; default, caller and all-keys modes) under an exception-type monitor, a result-type contract and a "
-    "sys.monitoring loop budget per function activation; wall-clock alarms are reported as inconclusive."
+    "files / memory maps; default, caller and all-keys modes) under an exception-type monitor, a result-type contract, a "
+    "sys.monitoring loop budget per function activation and, for raw-HTTP parsing, a CPU-time limit (ITIMER_VIRTUAL, "
+    "20 s of own user time per message) for loops inside the regular-expression engine; wall-clock alarms are reported "
+    "as inconclusive."
 )
 LEVEL_NOTE = "Covers the fault classes enumerated in the rule on the seeds generated; bounded progress is judged per activation (8*n+100000 iterations), not total time."
-TECHNIQUE = "fault injection on structured inputs + exception-type monitor + result-type contract + sys.monitoring back-edge budget (bounded progress)"
+TECHNIQUE = "fault injection on structured inputs + exception-type monitor + result-type contract + sys.monitoring back-edge budget and CPU-time limit (bounded progress)"
